@@ -27,7 +27,7 @@ pub fn iso3_from_param(p: &T3Storage) -> Iso3 {
 
 pub fn param_from_iso3(t: &Iso3) -> T3Storage {
     let v = t.translation.vector;
-    let e = t.rotation.euler_angles();
+    let e = rotations::to_roll_pitch_yaw(&t.rotation);
     T3Storage::new(v.x, v.y, v.z, e.0, e.1, e.2)
 }
 
